@@ -293,4 +293,156 @@ def rule_d(ctx: Ctx) -> None:
                 'evaluated on the 3x3 table of use values.')
 
 
-RULES = [rule_a, rule_b, rule_c, rule_d]
+# ---------------------------------------------------------------------------------------------------------------------
+# C14.e  group overrides of has_occurs_restriction accept only behind the minimum-occurs comparison
+
+def _single_return(fn) -> 'ast.AST | None':
+    body = [b for b in fn.node.body if not (isinstance(b, ast.Expr) and isinstance(b.value, ast.Constant))]
+    if len(body) == 1 and isinstance(body[0], ast.Return) and body[0].value is not None:
+        return body[0].value
+    return None
+
+
+def _particles_formula(ctx: Ctx, f, e: ast.AST, atoms: dict, depth: int = 0):
+    """Boolean formula over atoms; the atom 'P' means "the group has at least one particle"."""
+    if isinstance(e, ast.BoolOp):
+        return ('and' if isinstance(e.op, ast.And) else 'or', [_particles_formula(ctx, f, v, atoms, depth) for v in e.values])
+    if isinstance(e, ast.UnaryOp) and isinstance(e.op, ast.Not):
+        return ('not', [_particles_formula(ctx, f, e.operand, atoms, depth)])
+    t = text(e)
+    if t in ('self', 'self._group', 'len(self)', 'len(self._group)', 'bool(self)', 'bool(self._group)'):
+        return ('atom', 'P')
+    if isinstance(e, ast.Compare) and len(e.ops) == 1 and text(e.left) in ('len(self)', 'len(self._group)') \
+            and isinstance(e.comparators[0], ast.Constant) and isinstance(e.comparators[0].value, int):
+        k, op = e.comparators[0].value, type(e.ops[0])
+        if (op, k) in ((ast.Eq, 0), (ast.Lt, 1), (ast.LtE, 0)):
+            return ('not', [('atom', 'P')])
+        if (op, k) in ((ast.NotEq, 0), (ast.Gt, 0), (ast.GtE, 1)):
+            return ('atom', 'P')
+    if isinstance(e, ast.Compare) and len(e.ops) == 1 and isinstance(e.ops[0], (ast.Eq, ast.NotEq)) \
+            and text(e.left) in ('self._group', 'list(self)') and text(e.comparators[0]) == '[]':
+        return ('not', [('atom', 'P')]) if isinstance(e.ops[0], ast.Eq) else ('atom', 'P')
+    if isinstance(e, ast.Call) and isinstance(e.func, ast.Attribute) and text(e.func.value) == 'self' and not e.args and not e.keywords \
+            and f.cls is not None and depth < 3:
+        m = f.cls.find_method(e.func.attr)
+        r = _single_return(m) if m is not None else None
+        if r is not None:
+            return _particles_formula(ctx, m, r, atoms, depth + 1)
+    atoms.setdefault(t, len(atoms))
+    return ('atom', t)
+
+
+def _ev_formula(fm, env) -> bool:
+    k, a = fm
+    if k == 'atom':
+        return env[a]
+    if k == 'not':
+        return not _ev_formula(a[0], env)
+    vals = [_ev_formula(x, env) for x in a]
+    return all(vals) if k == 'and' else any(vals)
+
+
+def _implies_no_particles(ctx: Ctx, f, e: ast.AST, negate: bool) -> bool:
+    """Does (e if not negate else not e) imply that the group has no particles?  (truth table over the other atoms)"""
+    atoms: dict = {}
+    fm = _particles_formula(ctx, f, e, atoms)
+    names = ['P'] + list(atoms)
+    if len(names) > 10:
+        return False
+    sat = False
+    for bits in itertools.product((False, True), repeat=len(names)):
+        env = dict(zip(names, bits))
+        v = _ev_formula(fm, env)
+        if v != negate:
+            sat = True
+            if env['P']:
+                return False
+    return sat
+
+
+def _is_min_compare(e: ast.AST):
+    """'lt' for `<self-side min> < other.<min>`, 'ge' for `<self-side min> >= other.<min>` (and the mirrored forms)."""
+    if not (isinstance(e, ast.Compare) and len(e.ops) == 1):
+        return None
+    a, b, op = text(e.left), text(e.comparators[0]), type(e.ops[0])
+    sa, sb = ('min_occurs' in a and 'self.' in a and 'other.' not in a), ('min_occurs' in b and b.startswith('other.'))
+    ma, mb = ('min_occurs' in a and a.startswith('other.')), ('min_occurs' in b and 'self.' in b and 'other.' not in b)
+    if sa and sb:
+        return {ast.Lt: 'lt', ast.GtE: 'ge'}.get(op)
+    if ma and mb:
+        return {ast.Gt: 'lt', ast.LtE: 'ge'}.get(op)
+    return None
+
+
+def rule_e(ctx: Ctx) -> None:
+    """Every group override of ParticleMixin.has_occurs_restriction reaches an unconditional accept (`return True`) only after
+    the minimum-occurs comparison with the base particle has passed, or when the group has no particles at all."""
+    rule = 'C14.e'
+    base = ctx.idx.cls('xmlschema.validators.particles.ParticleMixin')
+    group = ctx.idx.cls('xmlschema.validators.groups.XsdGroup')
+    ln = group.find_method('__len__')
+    if ln is None or _single_return(ln) is None or text(_single_return(ln)) != 'len(self._group)':
+        raise AnalysisError(f'UNRECOGNISED-IDIOM {rule}: XsdGroup.__len__ is not `return len(self._group)` (truthiness of a group = has particles)')
+    n = 0
+    for c in ctx.idx.subclasses(base):
+        if c is base or group not in c.mro():
+            continue
+        f = c.methods.get('has_occurs_restriction')
+        if f is None:
+            continue
+        ctx.analysed(f.qualname)
+        g = cfg_of(ctx, f)
+        cut = set()
+        for b in g.nodes:
+            if b.kind != 'if':
+                continue
+            t = b.ast.test
+            mc = _is_min_compare(t)
+            if mc == 'lt':
+                cut.add((b, 'F'))
+            elif mc == 'ge':
+                cut.add((b, 'T'))
+            if _implies_no_particles(ctx, f, t, negate=False):
+                cut.add((b, 'T'))
+            if _implies_no_particles(ctx, f, t, negate=True):
+                cut.add((b, 'F'))
+        # nodes reachable from entry without crossing a cut edge
+        seen, stack = set(), [g.entry]
+        prev = {}
+        while stack:
+            x = stack.pop()
+            if x in seen:
+                continue
+            seen.add(x)
+            for m, lab in g.succ[x]:
+                if (x, lab) in cut or m in seen:
+                    continue
+                prev.setdefault(m, (x, lab))
+                stack.append(m)
+        for r in g.nodes:
+            if not (isinstance(r.ast, ast.Return) and r.kind not in ('entry', 'exit', 'raise_exit')
+                    and isinstance(r.ast.value, ast.Constant) and r.ast.value.value is True):
+                continue
+            n += 1
+            ok = r not in seen
+            det = ''
+            if not ok:
+                path, x = [], r
+                while x in prev and len(path) < 12:
+                    x, lab = prev[x]
+                    if x.kind in ('if', 'while'):
+                        path.append(f'`{text(x.ast.test)[:50]}`={lab}')
+                det = ('this accept is reached without `self.<min> < other.<min>` having been tested and with particles possibly present: path '
+                       + ' <- '.join(path) + '; a group that still has particles is then an occurs-restriction of any base particle, '
+                       'so a restricted type can accept the empty content its base rejects')
+            gs = sorted(t for t, lab in guards(ctx, f, r) if lab == 'T')
+            ctx.ob(rule, f'{c.name}.has_occurs_restriction: `return True` under {gs[-1][:50] if gs else "handler/fallthrough"} lies behind the '
+                   'minimum-occurs comparison or an emptiness test', f.loc(r.ast), ok, det,
+                   key=f'{c.name}.has_occurs_restriction|accept|{gs[-1][:50] if gs else "-"}')
+    ctx.floor(rule, 'unconditional accepts in group occurs-restriction overrides', n, 5)
+    ctx.explain('C14.e: in each override of has_occurs_restriction below XsdGroup, edges out of `if` tests that establish '
+                '"minimum not lowered" (self-side min < other min, False branch) or "no particles" (truth table over the '
+                'test with single-return helper methods inlined) are cut; no `return True` may remain reachable from entry.')
+
+
+RULES = [rule_a, rule_b, rule_c, rule_d, rule_e]
